@@ -393,20 +393,95 @@ Proof.
     + eapply Permutation_in; [exact Hp|exact H].
 Qed.
 
+(* ---- the retry loop: exactly-once for every attempt script ---- *)
+
+Definition long_enough (q : request) (r : response) : Prop :=
+  length (q_puts q) <= length (r_puts r) /\ length (q_dels q) <= length (r_dels r) /\
+  length (q_ranges q) <= length (r_ranges r) /\ length (q_gets q) <= length (r_gets r).
+
+(* every attempt that ends well has delivered at least one answer per call *)
+Definition attempts_ok (script : N -> request -> attempt * list attempt) : Prop :=
+  forall n q a, (a = fst (script n q) \/ In a (snd (script n q))) -> at_end a = AOk -> long_enough q (do_request a).
+
+Lemma with_retries_ok q : forall rest a,
+  (forall x, x = a \/ In x rest -> at_end x = AOk -> long_enough q (do_request x)) ->
+  match with_retries a rest with EOk r => long_enough q r | EErr _ => True end.
+Proof.
+  induction rest as [|a' rest IH]; intros a H; cbn [with_retries]; destruct (at_end a) eqn:E;
+    try exact I; try (apply H; [left; reflexivity|exact E]).
+  apply IH. intros x Hx. apply H. destruct Hx as [->|Hx]; right; [left; reflexivity|right; exact Hx].
+Qed.
+
+Lemma retry_exec_ok script : attempts_ok script -> exec_ok (retry_exec script).
+Proof.
+  intros H n q. unfold retry_exec. specialize (H n q). destruct (script n q) as [a rest]. cbn [fst snd] in H.
+  pose proof (with_retries_ok q rest a H) as G. destruct (with_retries a rest); [exact G|exact I].
+Qed.
+
+(* what the batch sees is the outcome of the last attempt made: earlier (failed) attempts leave no trace *)
+Lemma with_retries_last : forall pre a last,
+  Forall (fun x => exists e, at_end x = ARetriable e) (a :: pre) ->
+  (forall e, at_end last <> ARetriable e) ->
+  with_retries a (pre ++ [last]) =
+    match at_end last with AOk => EOk (do_request last) | AFatal e => EErr e | ARetriable e => EErr e end.
+Proof.
+  induction pre as [|b pre IH]; intros a last Hr Hl; inversion Hr as [|? ? (e & Ea) Hr']; subst; cbn [with_retries app];
+    rewrite Ea.
+  - cbn [with_retries]. destruct (at_end last); reflexivity.
+  - apply IH; assumption.
+Qed.
+
+(* Main theorem with the retry loop explicit: for EVERY attempt script -- any number of attempts per request, any
+   chunking, any partial delivery before a retriable failure -- in which the attempts that end well are long
+   enough, the conclusions of [exactly_once] hold, the executor's answer being that of the last attempt. *)
+Theorem exactly_once_attempts : forall script cfg evs s tr,
+  attempts_ok script -> Forall (ev_kind_ok cfg) evs -> close_ok false evs ->
+  run (retry_exec script) cfg evs = (s, tr) ->
+  st_dead s = false /\ ~ In Panicked tr /\
+  Permutation (flat_map ev_calls evs) (done_calls tr ++ pending cfg s) /\
+  (forall c r, In (Done c r) tr -> justified (retry_exec script) tr c r) /\
+  (cf_linger_pos cfg = false \/ In Close evs -> pending cfg s = []).
+Proof.
+  intros script cfg evs s tr Ha. apply exactly_once. apply retry_exec_ok. exact Ha.
+Qed.
+
 (* ---- the hypotheses are satisfiable, and the one on the executor is needed ---- *)
 
-Definition simple_bh (b : behaviour) : Prop := b = BhOk \/ exists e, b = BhErr e.
+Definition simple_bh (b : list nat * behaviour) : Prop := snd b = BhOk \/ exists e, snd b = BhErr e.
 
-Lemma scripted_exec_ok script : Forall simple_bh script -> exec_ok (scripted_exec script).
+Lemma do_request_single r : do_request (mkAttempt [r] AOk) = r.
+Proof. unfold do_request. cbn. destruct r; reflexivity. Qed.
+
+Lemma partial_attempts_retriable n q : forall ks a x,
+  In x (partial_attempts n a ks q) -> at_end x = ARetriable 0.
 Proof.
-  intros Hs n q. unfold scripted_exec.
-  assert (Hb : simple_bh (nth (N.to_nat n) script BhOk)).
-  { destruct (nth_in_or_default (N.to_nat n) script BhOk) as [H|H].
+  induction ks as [|k ks IH]; intros a x H; [destruct H|]. destruct H as [<-|H]; [reflexivity|exact (IH _ _ H)].
+Qed.
+
+Lemma scripted_attempts_ok script : Forall simple_bh script -> attempts_ok (scripted_attempts script).
+Proof.
+  intros Hs n q a Hin Hok. unfold scripted_attempts in Hin.
+  assert (Hb : simple_bh (nth (N.to_nat n) script ([], BhOk))).
+  { destruct (nth_in_or_default (N.to_nat n) script ([], BhOk)) as [H|H].
     - rewrite Forall_forall in Hs. apply Hs. exact H.
     - rewrite H. left. reflexivity. }
-  destruct Hb as [->|(e & ->)]; cbn; [|exact I].
-  rewrite !map_length. auto.
+  destruct (nth (N.to_nat n) script ([], BhOk)) as [ks bh]. unfold simple_bh in Hb. cbn [snd] in Hb.
+  assert (Hfinal : forall k, at_end (final_attempt bh n k q) = AOk -> long_enough q (do_request (final_attempt bh n k q))).
+  { intros k. destruct Hb as [->|(e & ->)]; cbn [final_attempt]; [|discriminate].
+    intros _. rewrite do_request_single. unfold long_enough. cbn. rewrite !map_length. auto. }
+  destruct (partial_attempts n 0 ks q) as [|p ps] eqn:P; cbn [fst snd] in Hin.
+  - destruct Hin as [->|[]]. apply Hfinal. exact Hok.
+  - assert (Hp : forall x, In x (p :: ps) -> at_end x = ARetriable 0).
+    { intros x Hx. rewrite <- P in Hx. exact (partial_attempts_retriable _ _ _ _ _ Hx). }
+    destruct Hin as [->|Hin].
+    + rewrite (Hp p (or_introl eq_refl)) in Hok. discriminate.
+    + apply in_app_or in Hin. destruct Hin as [Hin|[<-|[]]].
+      * rewrite (Hp a (or_intror Hin)) in Hok. discriminate.
+      * apply Hfinal. exact Hok.
 Qed.
+
+Lemma scripted_exec_ok script : Forall simple_bh script -> exec_ok (scripted_exec script).
+Proof. intros H. apply retry_exec_ok. apply scripted_attempts_ok. exact H. Qed.
 
 Definition ex_cfg : config := mkConfig BWrite true 3 10.
 Definition ex_evs : list event :=
@@ -414,8 +489,8 @@ Definition ex_evs : list event :=
    Tick; Call (mkCall 5 KPut 20); Call (mkCall 6 KDelete 1); Close; Call (mkCall 7 KPut 1)].
 
 Example exactly_once_nonvacuous :
-  exec_ok (scripted_exec [BhOk; BhErr 9]) /\ Forall (ev_kind_ok ex_cfg) ex_evs /\ close_ok false ex_evs /\
-  snd (run (scripted_exec [BhOk; BhErr 9]) ex_cfg ex_evs) =
+  exec_ok (scripted_exec [([], BhOk); ([], BhErr 9)]) /\ Forall (ev_kind_ok ex_cfg) ex_evs /\ close_ok false ex_evs /\
+  snd (run (scripted_exec [([], BhOk); ([], BhErr 9)]) ex_cfg ex_evs) =
     [ Sent 0 (mkReq [mkCall 1 KPut 4] [mkCall 2 KDelete 3] [] []);
       Done (mkCall 1 KPut 4) (ROk 1); Done (mkCall 2 KDelete 3) (ROk 2);
       Sent 1 (mkReq [mkCall 3 KPut 4] [] [mkCall 4 KDeleteRange 2] []);
@@ -428,9 +503,25 @@ Proof.
   split; [repeat constructor|]. split; [cbn; auto|]. vm_compute. reflexivity.
 Qed.
 
+(* a read batch of three gets whose stream delivers one answer, fails with a retriable status, delivers two
+   answers on the second attempt, fails again, and succeeds on the third: every get receives its own answer of the
+   third attempt (payload = request 0, attempt 2, own id); nothing of the earlier attempts is left *)
+Example partial_stream_then_retry :
+  attempts_ok (scripted_attempts [([1; 2], BhOk)]) /\
+  snd (run (scripted_exec [([1; 2], BhOk)]) (mkConfig BRead false 10 0)
+           [Call (mkCall 1 KGet 0)]) =
+    [Sent 0 (mkReq [] [] [] [mkCall 1 KGet 0]); Done (mkCall 1 KGet 0) (ROk 200001)] /\
+  snd (run (scripted_exec [([1; 2], BhOk)]) (mkConfig BRead true 3 0)
+           [Call (mkCall 1 KGet 0); Call (mkCall 2 KGet 0); Call (mkCall 3 KGet 0)]) =
+    [Sent 0 (mkReq [] [] [] [mkCall 1 KGet 0; mkCall 2 KGet 0; mkCall 3 KGet 0]);
+     Done (mkCall 1 KGet 0) (ROk 200001); Done (mkCall 2 KGet 0) (ROk 200002); Done (mkCall 3 KGet 0) (ROk 200003)].
+Proof.
+  split; [apply scripted_attempts_ok; repeat constructor|]. split; vm_compute; reflexivity.
+Qed.
+
 (* an answer that is one entry short: the first put is answered, the second indexes past the end *)
 Example short_answer_panics :
-  snd (run (scripted_exec [BhShort KPut 1]) (mkConfig BWrite false 10 100)
+  snd (run (scripted_exec [([], BhShort KPut 1)]) (mkConfig BWrite false 10 100)
            [Call (mkCall 1 KPut 4)]) =
     [Sent 0 (mkReq [mkCall 1 KPut 4] [] [] []); Panicked].
 Proof. vm_compute. reflexivity. Qed.
